@@ -170,6 +170,70 @@ pub fn run(thorough: bool, seed: u64, _replay: Option<String>) -> Report {
             rep.fail("oracle", "C12:serial-call-after-herd-differs", &format!("round {}", round), &pool[k].bytes, Some(&pool[k].sett), "herd");
         }
     }
+    // setting herds: one content, every thread its own language threshold (then: its own chaos threshold), many
+    // repetitions each, so that calls which differ in that one setting keep overlapping – each answer compared with the
+    // serial answer for that thread's setting
+    {
+        let texts = [("turkish", "utf-8"), ("russian", "utf-8"), ("greek", "iso-8859-7"), ("french", "windows-1252")];
+        for (hr, (name, enc)) in texts.iter().enumerate() {
+            if !thorough && hr >= 2 {
+                break;
+            }
+            let base = TEXTS.iter().find(|(x, _)| x == name).map(|x| x.1).unwrap_or(TEXTS[1].1);
+            let bytes = enc_bytes_lossy(&stretch(&mut rng, base, 900 + 300 * hr), enc);
+            if bytes.is_empty() {
+                continue;
+            }
+            let variants: Vec<Sett> = (0..8)
+                .map(|k| {
+                    let mut s = Sett::default();
+                    if hr % 2 == 0 {
+                        s.lthr = [0.1f32, 0.8, 0.0, 0.5, 0.3, 0.75, 0.05, 0.65][k];
+                    } else {
+                        s.thr = [0.2f32, 0.05, 0.5, 0.1, 0.3, 0.01, 1.0, 0.15][k];
+                    }
+                    s
+                })
+                .collect();
+            let serial: Vec<Outcome> = variants.iter().map(|s| { vh::flush_caches(); real_detect(&bytes, s) }).collect();
+            vh::flush_caches();
+            let bytes = Arc::new(bytes);
+            let variants = Arc::new(variants);
+            let barrier = Arc::new(Barrier::new(8));
+            let handles: Vec<_> = (0..8)
+                .map(|k| {
+                    let (bytes, variants, barrier) = (bytes.clone(), variants.clone(), barrier.clone());
+                    std::thread::spawn(move || {
+                        barrier.wait();
+                        let mut wrong: Option<Outcome> = None;
+                        let first = real_detect(&bytes, &variants[k]);
+                        for _ in 0..60 {
+                            let x = real_detect(&bytes, &variants[k]);
+                            if x != first && wrong.is_none() {
+                                wrong = Some(x);
+                            }
+                        }
+                        (k, first, wrong)
+                    })
+                })
+                .collect();
+            for h in handles {
+                rep.evaluations += 61;
+                rep.oracle_checked += 1;
+                match h.join() {
+                    Err(_) => rep.fail("oracle", "C12:thread-panicked", &format!("setting herd {}", hr), &bytes, None, "setting-herd"),
+                    Ok((k, first, wrong)) => {
+                        for got in std::iter::once(first).chain(wrong.into_iter()) {
+                            if got != serial[k] {
+                                rep.fail("oracle", "C12:concurrent-answer-differs-from-serial", &format!("setting herd {} (8 threads, one content, thread {} with {}): {} || serial {}", hr, k, variants[k].show(), got.show().chars().take(300).collect::<String>(), serial[k].show().chars().take(300).collect::<String>()), &bytes, Some(&variants[k]), "setting-herd");
+                            }
+                        }
+                    }
+                }
+            }
+            rep.count("herd:mode-setting-herd");
+        }
+    }
     // heavy herds: many bytes in flight at once – every single request well below the library's size limits, their sum
     // well above them (8 × ~300 kB, 48 × ~24 kB of legacy single-byte text, every thread its own content) – compared
     // with the same requests answered one at a time
